@@ -192,7 +192,23 @@ def _c20_bytes_id():
     return None if back == st else {'input': "state [[b'ab', []]]", 'decoded': ascii(back)}
 
 
+def _c04_requote_list_format():
+    from AccessControl.tainted import TaintedString
+    from DocumentTemplate import HTML
+    hits = []
+    for fmt in ('split', 'splitlines'):
+        src = '<dtml-var x fmt=%s url_unquote>' % fmt
+        try:
+            out = HTML(src)(x=TaintedString('<%3Cb'))
+        except Exception:  # noqa
+            continue
+        if '<' in out:
+            hits.append({'src': src, 'value': "TaintedString('<%3Cb')", 'out': out})
+    return hits[0] if hits else None
+
+
 PROBES = {
+    'C04': [('C04-requote-list-format', _c04_requote_list_format)],
     'C13': [('C13-locale-none', _c13_locale_none)],
     'C05': [('C05-tree-sort-key', _c05_tree_sort_key), ('C05-tree-id', _c05_tree_id),
             ('C05-tree-expand-all', _c05_tree_expand_all)],
